@@ -402,13 +402,21 @@ def resize(catalog, ratio=None, psfhelper=None):
             "Using ratio of {0} to scale input source shapes".format(ratio))
 
         for i, src in enumerate(catalog):
+            psf_a, psf_b = src.psf_a, src.psf_b
+            if not np.all(np.isfinite((psf_a, psf_b))) \
+                    and psfhelper is not None:
+                # the catalogue has no psf information for this source:
+                # assume that it was made with the psf of this image
+                imbeam = psfhelper.get_skybeam(src.ra, src.dec)
+                if imbeam is not None:
+                    psf_a, psf_b = imbeam.a * 3600, imbeam.b * 3600
             # the new source size is the previous size, convolved with the
             # expanded psf
             src.a = np.sqrt(
-                src.a ** 2 + (src.psf_a) ** 2 * (1 - 1 / ratio ** 2)
+                src.a ** 2 + (psf_a) ** 2 * (1 - 1 / ratio ** 2)
             )
             src.b = np.sqrt(
-                src.b ** 2 + (src.psf_b) ** 2 * (1 - 1 / ratio ** 2)
+                src.b ** 2 + (psf_b) ** 2 * (1 - 1 / ratio ** 2)
             )
             # source with funky a/b are also rejected
             if not np.all(np.isfinite((src.a, src.b))):
@@ -421,14 +429,18 @@ def resize(catalog, ratio=None, psfhelper=None):
     # provided via a psf map then we use that psf.
     elif psfhelper is not None or has_psf:
         for i, src in enumerate(catalog):
-            if (src.psf_a <= 0) or (src.psf_b <= 0):
+            # sources without psf information (e.g. a catalogue without the
+            # optional psf columns) are assumed to have the psf of the image
+            src_has_psf = has_psf and bool(
+                np.all(np.isfinite((src.psf_a, src.psf_b))))
+            if src_has_psf and ((src.psf_a <= 0) or (src.psf_b <= 0)):
                 src_mask[i] = False
                 log.info(
                     ("Excluding source ({0.island},{0.source})" +
                      "due to psf_a/b <=0").format(src)
                 )
                 continue
-            if has_psf:
+            if src_has_psf:
                 catbeam = Beam(src.psf_a / 3600, src.psf_b / 3600, src.psf_pa)
             else:
                 catbeam = Beam(*psfhelper.get_psf_sky2sky(src.ra, src.dec))
